@@ -323,7 +323,6 @@ func c16Collapse(c *Ctx) {
 	}
 }
 
-
 // accessors a v1->v2 conversion need not consult
 var c16MigrateNotConsulted = map[string]string{
 	"FileVersion": "the result is a v2 configuration by construction",
